@@ -17,10 +17,10 @@ def run(tier, rep):
     with Scratch() as sc:
         ref = ebnf_tokens.reference_dfa()
         if thorough:
-            pads = [0, 1, 60, 61, 4089, 4090, 4091, 4092, 4093, 4094, 4095, 4096, 4097, 4098, 8186, 8188, 8189, 8190, 8191, 8192, 8193, 12287, 12288]
+            pads = [0, 1, 61, 4091, 4092, 4093, 4094, 4095, 4096, 4097, 8190, 8191, 8192, 12287]
             tails = ['', '\n', ' x', ';', '/*c*/', '//\tx\n;']
-            n = 3
-            bigs = [61, 4093, 4095, 4096, 4097, 8200, 12300]
+            n = 2
+            bigs = [61, 4095, 4096, 4097, 8200]
         else:
             pads = [0, 4093, 4094, 4095, 4096, 8191]
             tails = ['', '\n', ' x', '//\tx\n;']
